@@ -545,6 +545,12 @@ func (x *c10sSess) noteCloses() {
 // request-body bytes, and refunds them again when the handler reads them afterwards".
 const c10sKnownDoubleRefund = "c10-closestream-double-refund"
 
+// c10sKnownQueuedFramePanic: closeStream marks the stream closed and refunds
+// connection credit before it drops the stream's queued frames; when it runs from an
+// asynchronously completed write, the refund's frame scheduling pops a queued
+// stream-level frame of the closed stream and startFrameWrite panics.
+const c10sKnownQueuedFramePanic = "c10-closestream-queued-frame-panic"
+
 func c10sRun(c c10sCase, m c10sMode) (res c10sResult) {
 	x := &c10sSess{c: c, res: &res, m: m, byID: map[uint32]*c10sSt{}, nextID: 1, discard: map[string]bool{}}
 	n := len(c.Streams)
@@ -941,7 +947,7 @@ func c10sGen(t *rapid.T) c10sCase {
 	// A bounded pipe towards the client plus runs of steps after which the client does
 	// not read: the server's writer blocks, so RST_STREAM / WINDOW_UPDATE frames stay
 	// queued while more DATA arrives.
-	c.ReadBuf = rapid.SampledFrom([]int{0, 16, 16, 64, 256}).Draw(t, "read_buf")
+	c.ReadBuf = rapid.SampledFrom([]int{0, 0, 0, 16, 64, 256}).Draw(t, "read_buf")
 	ndMode := rapid.IntRange(0, 2).Draw(t, "nd_mode") // never / half of the steps / most steps
 	step := rapid.Custom(func(t *rapid.T) c10sStep {
 		kind := rapid.SampledFrom([]string{"data", "data", "data", "data", "data", "data", "data", "data", "rst", "release", "release", "release", "ping", "ping"}).Draw(t, "kind")
@@ -1048,7 +1054,15 @@ func TestVP_C10_server(t *testing.T) {
 	// trace on every serve-loop call (half of the run time); not part of the property
 	DisableGoroutineTracking(t)
 	vp.Run(t, vp.Spec[c10sCase]{ID: "C10", Sub: "server", Gen: c10sGen,
-		Known: func(c c10sCase) string { return c10sEval(t, c).known },
+		Known: func(c c10sCase) string {
+			// The queued-frame panic kills the process, so its predicate has to be
+			// decided without running the session: it needs a server writer that can
+			// block, i.e. a bounded pipe towards the client.
+			if c.ReadBuf > 0 && c10sFindingOpen(c10sKnownQueuedFramePanic) {
+				return c10sKnownQueuedFramePanic
+			}
+			return c10sEval(t, c).known
+		},
 		Prop: func(c c10sCase, r *vp.Rec) error {
 			res := c10sEval(t, c)
 			res.apply(r)
